@@ -39,6 +39,8 @@ LEVEL = "exploration"
 TECHNIQUE = ("deterministic simulation: seeded challenge/advance/respond histories with simulated clock and tape-driven randomness "
              "on real DigestCredentialFactory/DigestedCredentials vs an independent RFC 2617 client and challenge ledger")
 QUICK_RUNS = 70000
+TWIN_P = 0.08   # this share of the runs drives two independent instances of the scenario one after the other (detsim.runner._run_scenario)
+USES_DEPTH = True   # thorough tier: history length bound scales with sim.depth (1..3) beyond the quick tier\'s run indices
 BATCH = 25
 RUN_WALL_LIMIT_S = 60   # the machine is shared; a run itself takes about a millisecond
 COMPONENTS = {"real": ["twisted.cred.credentials.DigestCredentialFactory (getChallenge/_generateOpaque/_verifyOpaque/decode)",
@@ -139,7 +141,7 @@ def _run(sim):
     algo = sim.draw_choice([b"md5", b"sha"], "algorithm")
     via_web = sim.draw_bool(0.3, "via_web")
     nfac = sim.draw_int(1, 2, "factories")
-    nsteps = sim.draw_int(6, 24, "steps")
+    nsteps = sim.draw_int(6, 24 * sim.depth, "steps")
     avoid = sim.draw_bool(0.15, "avoid_known") or bool(os.environ.get("VERIF_C48_AVOID_KNOWN"))
     start = sim.draw_int(0, 5000, "t0")
     realm = b"test realm"
@@ -435,7 +437,7 @@ def _run(sim):
         evaluate(kind, expect, fidx, header, method, addr, used_pw, right_pw)
 
     for _ in range(nsteps):
-        sim.step(200)
+        sim.step(200 * sim.depth)
         ops = [("challenge", 4 if len(issued) < 10 else 0), ("respond", 12 if issued else 0), ("advance", 2), ("to-boundary", 2 if issued else 0)]
         op = sim.draw_weighted(ops, "op")
         if op == "challenge":
